@@ -25,7 +25,7 @@ ASSUMPTIONS = ['keystrokes and child output are injected into harness-side buffe
                'schedule deviation bound 1 (quick) / 2 (thorough) over the placement of peer actions']
 EXHAUSTIVE = False      # complete only within the deviation bound, see BOUND_NOTE
 BOUND_NOTE = 'all schedules with at most 1 (quick) / 2 (thorough) non-default placements of peer actions are enumerated completely'
-REQUIRED_FLAGS = {'escape_first': 1, 'escape_middle': 1, 'escape_repeated': 1, 'exit_ending': 1, 'filters': 1, 'pending_flush': 1,
+REQUIRED_FLAGS = {'second_interact': 1, 'escape_first': 1, 'escape_middle': 1, 'escape_repeated': 1, 'exit_ending': 1, 'filters': 1, 'pending_flush': 1,
                   'interleaved': 1}
 
 ESC = b'\x1d'
@@ -97,7 +97,9 @@ CONFIGS += [dict(filt='strip-out', mode='bytes', esc='default', poll=False, pend
             dict(filt='none', mode='bytes', esc='default', poll=True, pending=False),
             dict(filt='none', mode='bytes', esc='default', poll=False, pending=True),
             dict(filt='both', mode='utf-8', esc='default', poll=True, pending=True),
-            dict(filt='in', mode='utf-8', esc='q', poll=False, pending=True)]
+            dict(filt='in', mode='utf-8', esc='q', poll=False, pending=True),
+            dict(filt='none', mode='bytes', esc='default', poll=False, pending=False, twice=True),
+            dict(filt='both', mode='utf-8', esc='default', poll=True, pending=True, twice=True)]
 
 
 def bounds(tier):
@@ -239,6 +241,41 @@ def run_interact(ch, cfg, pieces, merge, ending, logs=False):
                     elif ending == 'escape' and escbyte is None and False:
                         pass
         obs['escaped'] = bool(escbyte and escbyte in typed)
+        # ---- a second interact() on the same object (state that outlives the first call) -----------
+        if viol is None and cfg.get('twice') and escbyte is not None and sp.hs_proc.alive() and not env.script:
+            del env.hbuf[os_][:]                 # what was typed after the escape is gone with the first session
+            n_screen, n_child = len(env.sent.get(os_, b'')), len(env.sent.get(sp.hs_master, b''))
+            left0 = len(env.hbuf.get(sp.hs_master, b''))
+            env.add('fn', (lambda: env.hbuf[os_].extend(b'b\r')))
+            env.add('w', b'wv', fd=sp.hs_slave)
+            env.add('fn', (lambda: env.hbuf[os_].extend(escbyte)))
+            sys.stdout = fake
+            try:
+                sp.interact(escape_character=escchar, input_filter=in_f, output_filter=out_f)
+                ret2 = 'returned'
+            except (E.Hang, Cut, E.HarnessError):
+                raise
+            except BaseException as e:   # noqa
+                ret2 = 'exc %r' % (e,)
+            sys.stdout = saved_stdout
+            screen2 = bytes(env.sent.get(os_, b''))[n_screen:]
+            child2 = bytes(env.sent.get(sp.hs_master, b''))[n_child:]
+            fired2 = b'wv' if not any(a.kind == 'w' for a in env.script) else b''
+            avail2 = (b'x' * 0) + bytes(consumed_out[:0]) + fired2
+            unread2 = len(env.hbuf.get(sp.hs_master, b''))
+            want_screen2 = (bytes(left) + fired2)[:len(bytes(left) + fired2) - unread2]
+            if out_f:
+                want_screen2 = out_f(want_screen2)
+            want_child2 = in_f(b'b\r') if in_f else b'b\r'
+            obs['second'] = dict(ret=ret2, screen=screen2, to_child=child2)
+            if ret2 != 'returned':
+                viol = ('second-exception', 'second interact() ended with %s' % ret2)
+            elif termios.tcgetattr(os_) != mode_before:
+                viol = ('second-termios', 'terminal mode not restored after the second interact()')
+            elif screen2 != want_screen2:
+                viol = ('second-screen', 'second interact(): user saw %r, expected %r' % (screen2, want_screen2))
+            elif child2 != want_child2 and not any(a.kind == 'fn' for a in env.script):
+                viol = ('second-keys', 'second interact(): child received %r, expected %r' % (child2, want_child2))
     except E.Hang as h:
         viol = ('hang', 'interact() never returns: %s' % h)
     except Cut as c:
@@ -313,6 +350,8 @@ def run_task(task):
                 acc.flags['filters'] += 1
             if cfg['pending']:
                 acc.flags['pending_flush'] += 1
+            if obs.get('second'):
+                acc.flags['second_interact'] += 1
             if 'c' in mg and 'k' in mg:
                 acc.flags['interleaved'] += 1
             if nt:
